@@ -55,6 +55,7 @@ class Cls:
     annots: dict[str, ast.expr] = field(default_factory=dict)  # mangled name -> annotation
     nested: dict[str, "Cls"] = field(default_factory=dict)
     decorators: set[str] = field(default_factory=set)
+    table_lambdas: dict[str, list["Func"]] = field(default_factory=dict)  # class-level attr -> lambdas in its initialiser
 
     def __hash__(self) -> int:
         return id(self)
@@ -252,10 +253,23 @@ class Model:
                                 cls.annots[nm] = s.annotation
                             if s.value is not None:
                                 cls.assigns[nm] = s.value
+                                self._index_class_lambdas(m, cls, nm, s.value)
                         elif cls is None and fn is None and s.value is not None:
                             m.assigns[t.id] = s.value
             elif isinstance(s, ast.If) and cls is None and fn is None:
                 self._index_body_nested_if(m, s, prefix)
+
+    def _index_class_lambdas(self, m: Mod, cls: Cls, attr: str, value: ast.expr) -> None:
+        """Lambdas in class-level initialisers (handler tables) become functions `Cls.attr.<lambda#k>`."""
+        k = 0
+        for sub in ast.walk(value):
+            if isinstance(sub, ast.Lambda) and id(sub) not in self.func_of_node:
+                k += 1
+                lq = f"{cls.qual}.{attr}.<lambda#{k}>"
+                lf = Func(f"<lambda#{k}>", lq, m, sub, cls, None, set(), "function")
+                cls.table_lambdas.setdefault(attr, []).append(lf)
+                self.funcs[lq] = lf
+                self.func_of_node[id(sub)] = lf
 
     def _index_body_nested_if(self, m: Mod, s: ast.If, prefix: str) -> None:
         for blk in (s.body, s.orelse):
